@@ -20,7 +20,7 @@ from .common import float_bits
 
 def ast_json(node):
     if isinstance(node, ast.Constant):
-        return {'k': 'Constant', 'v': val_json(node.value)}
+        return {'k': 'Constant', 'v': val_json(node.value, True)}
     d = {'k': type(node).__name__}
     for f in node._fields:
         v = getattr(node, f, None)
@@ -41,7 +41,8 @@ def ast_json(node):
     return d
 
 
-def val_json(v):
+def val_json(v, inp=False):
+    """inp=True: an INPUT to the model (NaN keeps its bit pattern); outputs canonicalise NaN."""
     if v is None:
         return {'t': 'none'}
     if isinstance(v, bool):
@@ -49,7 +50,7 @@ def val_json(v):
     if isinstance(v, int):
         return {'t': 'int', 'v': str(v)}
     if isinstance(v, float):
-        return {'t': 'flt', 'v': 'nan' if math.isnan(v) else float_bits(v)}
+        return {'t': 'flt', 'v': 'nan' if (math.isnan(v) and not inp) else float_bits(v)}
     if isinstance(v, str):
         return {'t': 'str', 'v': v}
     if isinstance(v, datetime.datetime):
@@ -61,9 +62,9 @@ def val_json(v):
             return {'t': 'td', 'v': str(v.days)}
         return {'t': 'other', 'v': 'timedelta-with-seconds'}
     if isinstance(v, list):
-        return {'t': 'list', 'v': [val_json(x) for x in v]}
+        return {'t': 'list', 'v': [val_json(x, inp) for x in v]}
     if isinstance(v, dict):
-        return {'t': 'row', 'v': [[str(k), val_json(x)] for k, x in v.items()]}
+        return {'t': 'row', 'v': [[str(k), val_json(x, inp)] for k, x in v.items()]}
     if isinstance(v, types.GeneratorType):
         return {'t': 'gen'}
     if isinstance(v, bytes):
@@ -91,13 +92,13 @@ def ctx_json(txn, variables=None, data_sources=None):
     d = txn.get('date')
     return {
         'description': txn.get('description', txn.get('raw_description', '')),
-        'amount': val_json(amount),
-        'date': val_json(d) if d else {'t': 'none'},
+        'amount': val_json(amount, True),
+        'date': val_json(d, True) if d else {'t': 'none'},
         'source': txn.get('source') or '',
         'location': txn.get('location') or '',
-        'field': None if txn.get('field') is None else [[k, val_json(v)] for k, v in txn['field'].items()],
-        'variables': [[k, val_json(v)] for k, v in (variables or {}).items()],
-        'sources': [[k, val_json(v)] for k, v in (data_sources or {}).items()],
+        'field': None if txn.get('field') is None else [[k, val_json(v, True)] for k, v in txn['field'].items()],
+        'variables': [[k, val_json(v, True)] for k, v in (variables or {}).items()],
+        'sources': [[k, val_json(v, True)] for k, v in (data_sources or {}).items()],
     }
 
 
@@ -140,6 +141,9 @@ def oracle_compute(prim, args):
     if prim == 'fltstr':
         from .common import bits_float
         return str(bits_float(args[0]))
+    if prim == 'fmod':
+        from .common import bits_float
+        return float_bits(bits_float(args[0]) % bits_float(args[1]))
     if prim == 'round':
         from .common import bits_float
         x = bits_float(args[0])
@@ -155,7 +159,7 @@ def extract_group_none(pattern, text):
     return None
 
 
-def model_eval(cases, max_rounds=12):
+def model_eval(cases, max_rounds=80):
     """cases: [{'expr': ast-json, 'ctx': ctx-json, 'convert_py': bool}] → list of outcomes.
     Outcome: {'ok': val} | {'err': 'expr'} | {'err': 'py', 'cls': …} | {'err': 'unmodelled', 'why': …}."""
     d = common.Driver()
